@@ -27,6 +27,27 @@ def is_ptr(v):
     return v[0] == "ptr"
 
 
+def _idx(c):
+    """numeric index of a path component '[k]', '*' for '[*]', None otherwise"""
+    if isinstance(c, str) and c.startswith("[") and c.endswith("]"):
+        return "*" if c == "[*]" else int(c[1:-1])
+    return None
+
+
+def ptr_add(p, k):
+    """pointer + k elements (k int or None for unknown)"""
+    path = p[2]
+    last = _idx(path[-1]) if path else None
+    if last is not None:
+        if last == "*" or k is None:
+            return ("ptr", p[1], path[:-1] + ("[*]",))
+        j = last + k
+        return ("ptr", p[1], path[:-1] + ("[%d]" % j if 0 <= j <= 64 else "[*]",))
+    if k == 0:
+        return p
+    return ("ptr", p[1], path + ("[%d]" % k if (k is not None and 0 <= k <= 64) else "[*]",))
+
+
 class State:
     """Immutable-by-convention abstract state: location -> value."""
     __slots__ = ("m", "_h")
@@ -125,6 +146,7 @@ class Interp:
         self.trace_calls = None
         self.fn_cache = {}
         self.untracked = untracked_fields(prog)
+        self.counter_fns = set()   # functions whose small local loop counters stay concrete
 
     # ------------------------------------------------------------------
     def report(self, rule, key, message, where="", witness=None):
@@ -288,7 +310,8 @@ class Interp:
                 else:
                     for v, st3 in self.eval(b, st2, fr):
                         if is_ptr(v):
-                            yield ((v[1], v[2] + (ix,)), st3)
+                            q = ptr_add(v, iv[1] if is_int(iv) else None)
+                            yield ((q[1], q[2]), st3)
                         else:
                             yield (None, st3)
             return
@@ -335,9 +358,9 @@ class Interp:
         elif k in ("var", "gvar", "mem", "deref", "idx"):
             t = str(n.get("t", ""))
             if t.endswith("]") and k != "deref":
-                # array decays to a pointer to its storage
+                # array decays to a pointer to its first element
                 for loc, st2 in self.lval(n, st, fr):
-                    yield (("ptr", loc[0], loc[1]) if loc else TOP, st2)
+                    yield (("ptr", loc[0], loc[1] + ("[0]",)) if loc else TOP, st2)
                 return
             if n.get("r") and not n.get("pd") and k != "deref":
                 # aggregate rvalue: represented by its location
@@ -523,9 +546,9 @@ class Interp:
             return TOP
         if is_ptr(a) and op in ("+", "-") and not is_ptr(b):
             # pointer arithmetic stays within the same abstract object
-            if b == ZERO:
-                return a
-            return ("ptr", a[1], a[2] + ("[*]",)) if (not a[2] or a[2][-1] != "[*]") else a
+            if is_int(b):
+                return ptr_add(a, b[1] if op == "+" else -b[1])
+            return ptr_add(a, None)
         if op in ("<", ">", "<=", ">=") and is_ptr(a) and is_ptr(b):
             return TOP
         return TOP
@@ -542,7 +565,13 @@ class Interp:
                 if self.on_read:
                     self.on_read(self, st2, loc)
                 old = self.read(st2, loc)
-                yield (TOP, self.write(st2, loc, TOP, compound=True))
+                new = TOP
+                if is_int(old) and loc[0].startswith("L") and loc[0][1:].isdigit() and 0 <= old[1] < 16 \
+                        and fr.fn.name in self.counter_fns:
+                    # a small local loop counter: keep it concrete (bounded)
+                    new = I(old[1] + (1 if op == "++" else -1))
+                rv = new if n.get("pre") else old
+                yield (rv if new != TOP else TOP, self.write(st2, loc, new, compound=True))
             return
         if op != "=":
             for v, st2 in self.eval(n["r"], st, fr):
